@@ -56,7 +56,7 @@ static void *pz_realloc (void *p, size_t old, size_t n, void *ud) {
 static struct MIR_alloc pz_alloc = {pz_malloc, pz_calloc, pz_realloc, pz_free, NULL};
 
 /* ------------------------------------------------------------------ P: the protocol tie */
-#define MAXI 4096
+#define MAXI 32768 /* (large functions of tools/gen_c03_progs.py gen_big_program: thousands of insns, twice during generation) */
 static MIR_insn_t id_ptr[MAXI];
 static int id_n;
 static uint64_t lcg;
@@ -355,7 +355,9 @@ static void do_P (char *line) {
       MIR_lref_data_t l = func->first_lref;
       while (kk-- > 0) l = l->next;
       l->label = lab;
-      if (l->label2 != NULL) l->label2 = rnd_label (func);
+      /* the second label is re-pointed or CLEARED (remove_unreachable_bbs clears the labels of an lref whose
+         label stands in unreachable code): ERetarget k lab None of the model */
+      if (l->label2 != NULL) l->label2 = rnd (3) == 0 ? NULL : rnd_label (func);
       printf ("T%d.%d.%d", k, id_of (l->label), l->label2 ? id_of (l->label2) : -1);
     }
   }
@@ -387,7 +389,7 @@ static void do_P (char *line) {
 /* ------------------------------------------------------------------ G: end to end */
 struct base {
   int have;
-  uint64_t text, idents;
+  uint64_t text, idents, ltext;
   size_t nvars;
   void *mc;
 } base[MAXFN];
@@ -401,6 +403,26 @@ static uint64_t item_text_hash (MIR_item_t it) {
   fclose (f);
   uint64_t h = text_hash (buf, len);
   free (buf);
+  return h;
+}
+/* the lref data items that belong to the function (their labels are labels of the function: MIR_link
+   chains them at func->first_lref), as MIR_output_item prints them, plus the displacement field */
+static uint64_t lref_text_hash (MIR_item_t func_item, int *null_label) {
+  uint64_t h = 1469598103934665603ull;
+  for (MIR_item_t it = DLIST_HEAD (MIR_item_t, func_item->module->items); it != NULL;
+       it = DLIST_NEXT (MIR_item_t, it)) {
+    if (it->item_type != MIR_lref_data_item) continue;
+    int mine = 0;
+    for (MIR_lref_data_t l = func_item->u.func->first_lref; l != NULL; l = l->next)
+      if (l == it->u.lref_data) mine = 1;
+    if (!mine) continue;
+    if (it->u.lref_data->label == NULL) { /* MIR_output_item would dereference it */
+      *null_label = 1;
+      continue;
+    }
+    h ^= item_text_hash (it) + (uint64_t) it->u.lref_data->disp * 31 + (it->u.lref_data->label2 != NULL);
+    h *= 1099511628211ull;
+  }
   return h;
 }
 static uint64_t ident_hash (MIR_func_t func) {
@@ -422,8 +444,11 @@ static void snap (void) {
     MIR_func_t func = p_funcs[i]->u.func;
     uint64_t t = item_text_hash (p_funcs[i]), id = ident_hash (func);
     size_t nv = VARR_LENGTH (MIR_var_t, func->vars);
+    int lnull = 0;
+    uint64_t lt = lref_text_hash (p_funcs[i], &lnull);
     if (!base[i].have) {
       base[i].have = 1;
+      base[i].ltext = lt;
       base[i].text = t;
       base[i].idents = id;
       base[i].nvars = nv;
@@ -436,7 +461,8 @@ static void snap (void) {
     if (base[i].mc != NULL && func->machine_code != base[i].mc) mc = "MC-CHANGED";
     if (func->machine_code != NULL && func->call_addr == NULL) mc = "NO-CALL-ADDR";
     if (base[i].mc == NULL && func->machine_code != NULL) base[i].mc = func->machine_code;
-    printf (" %s:%016" PRIx64 ":%s%s%s%s%s%s:%s", func->name, t, t == base[i].text ? "" : "TEXT-CHANGED,",
+    printf (" %s:%016" PRIx64 ":%s%s%s%s%s%s%s%s:%s", func->name, t, t == base[i].text ? "" : "TEXT-CHANGED,",
+            lt == base[i].ltext ? "" : "LREF-TEXT-CHANGED,", lnull ? "LREF-LABEL-NULL," : "",
             id == base[i].idents ? "" : "INSNS-REPLACED,", nv == base[i].nvars ? "" : "VARS-CHANGED,",
             DLIST_HEAD (MIR_insn_t, func->original_insns) == NULL ? "" : "ORIGINAL-INSNS-LEFT,",
             lorig ? "LREF-ORIG-LEFT," : "", p_funcs[i]->addr == p_addr0[i] ? "" : "ADDR-CHANGED,", mc);
